@@ -2,7 +2,7 @@ import numpy as np
 from glue.core import Data
 from glue.core.exceptions import IncompatibleAttribute, IncompatibleDataException
 from glue.core.component import DaskComponent
-from glue.core.coordinate_helpers import dependent_axes
+from glue.core.coordinate_helpers import world_axis_dependencies
 from glue.utils import unbroadcast, broadcast_arrays_minimal
 
 # TODO: cache needs to be updated when links are removed/changed
@@ -58,7 +58,7 @@ def translate_pixel(data, pixel_coords, target_cid):
                 comp = data.get_component(target_cid)
             else:
                 comp = data._world_components[target_cid]
-            return comp._calculate(view=pixel_coords), dependent_axes(data.coords, comp.axis)
+            return comp._calculate(view=pixel_coords), world_axis_dependencies(data.coords, comp.axis)
         else:
             raise IncompatibleAttribute(target_cid)
 
